@@ -3,9 +3,76 @@ package core
 // C10 (non-interference kernel): the environment handed to a build action
 // depends on the invoking shell only through pass_env / pass_unsafe_env.
 
-import "sort"
+import (
+	"hash"
+	"sort"
+)
 
-func init() { vpRegister("vpH_C10_env", vpH_C10_env) }
+func init() {
+	vpRegister("vpH_C10_env", vpH_C10_env)
+	vpRegister("vpH_C10_confighash", vpH_C10_confighash)
+}
+
+// model of crypto/sha1 for the config hash: a collision-free digest of the
+// bytes written (equal digests exactly for equal streams)
+type vpRecHash struct{ buf []byte }
+
+func (h *vpRecHash) Write(p []byte) (int, error) { h.buf = append(h.buf, p...); return len(p), nil }
+func (h *vpRecHash) Sum(b []byte) []byte         { return append(b, vpInjectiveDigest(h.buf, 20)...) }
+func (h *vpRecHash) Reset()                      { h.buf = nil }
+func (h *vpRecHash) Size() int                   { return 20 }
+func (h *vpRecHash) BlockSize() int              { return 64 }
+func vpModelSha1New() hash.Hash                  { return &vpRecHash{} }
+
+// vpH_C10_confighash: the configuration hash (part of every rule hash) is the
+// same in two invoking shells that agree on the pass_env variables, however
+// they differ in pass_unsafe_env variables (PATH included) and in anything else.
+func vpH_C10_confighash() {
+	vpWorldEnv = [2]map[string]string{{}, {}}
+	vpWorldSet = [2]map[string]bool{{}, {}}
+	cfgPassed := vpEnvName("config_pass_env")
+	unsafe := "PATH"
+	if !vpNondetBool("unsafe-variable-is-PATH") {
+		unsafe = vpEnvName("config_pass_unsafe_env")
+		vpAssume(unsafe != cfgPassed)
+	}
+	other := vpEnvName("other")
+	vpAssume(other != cfgPassed && other != unsafe)
+	v := vpNondetString("shared-value", 1)
+	vpSetWorldVar(0, cfgPassed, v)
+	vpSetWorldVar(1, cfgPassed, v)
+	// the unsafe variable and another one differ between the shells
+	vpSetWorldVar(0, unsafe, "/a:"+vpNondetString("unsafe0", 1))
+	vpSetWorldVar(1, unsafe, "/b:"+vpNondetString("unsafe1", 1))
+	if vpNondetBool("other-set-in-world0") {
+		vpSetWorldVar(0, other, vpNondetString("other0", 1))
+	}
+	explicitPath := vpNondetBool("build.path-set-in-config")
+	mk := func() *Configuration {
+		cfg := &Configuration{buildEnvStored: &storedBuildEnv{}}
+		cfg.Build.Lang, cfg.Build.Nonce = "en_GB.UTF-8", "1402"
+		cfg.Build.PassEnv = []string{cfgPassed}
+		cfg.Build.PassUnsafeEnv = []string{unsafe}
+		cfg.Please.Location = "/plz"
+		if explicitPath {
+			cfg.Build.Path = []string{"/usr/bin"}
+		}
+		// what ReadConfigFiles does after reading the files
+		setBuildPath(&cfg.Build.Path, cfg.Build.PassEnv, cfg.Build.PassUnsafeEnv)
+		return cfg
+	}
+	vpWorld = 0
+	h0 := mk().Hash()
+	vpWorld = 1
+	h1 := mk().Hash()
+	same := len(h0) == len(h1)
+	for i := 0; same && i < len(h0); i++ {
+		if h0[i] != h1[i] {
+			same = false
+		}
+	}
+	vpAssert("config-hash-independent-of-pass_unsafe_env-values", same)
+}
 
 // two worlds = two invoking shells. vpWorld selects which one os.Getenv /
 // os.LookupEnv (redirected to the models below) read.
